@@ -405,6 +405,8 @@ fn c13_case(seed: u64, trace: bool) -> CaseOut {
         t.gso = r.chance(80);
     }
     h.drv.max_datagrams = *r.pick(&[1, 2, 5, 10]);
+    // what each side is prepared to receive: sometimes less than the other side's initial MTU
+    h.max_udp_payload = [*r.pick(&[1200, 1300, 1472, 1472, 9000]), *r.pick(&[1200, 1250, 1472, 1472, 9000])];
     // path MTU profile: starts somewhere, then black-holes larger packets (repeatedly)
     h.net.mtu = *r.pick(&[1200, 1350, 1452, 1472, 2000, 9000]);
     h.net.mtu_schedule.clear();
